@@ -81,6 +81,12 @@ def run(ch, build):
         if ch.quick() and len(b) > 60 and rng.randrange(4):
             continue
         pri.append((name, prior, b, g))
+        if name.startswith("v2session") and len(b) > 24:
+            # ... or a packet that was REFUSED: cut off after its payload, inside its pad, inside its AuthCode (what a
+            # decoder leaves behind on its error paths - in the layer and in the integrity algorithm it shares with the
+            # next packet - is part of "the previous contents")
+            for cut in rng.sample(range(len(b) - 22, len(b)), 2 if ch.quick() else 8):
+                pri.append((name, rng.choice(by_layer[name])[:cut] if rng.randrange(2) else b[:cut], b, g))
     gp = core.harness(["rtp %s %s %s" % (name, L.hx(prior), L.hx(b)) for name, prior, b, _ in pri])
     for (name, prior, b, g), g2 in zip(pri, gp):
         ch.note_case("c08-reused-" + name.split(":")[0], L.hx(prior) + "|" + L.hx(b))
